@@ -627,7 +627,15 @@ Definition obs_untimed_impl (c : conn_case) : list (Z * bytes) * list call * opt
    map snd (cc_calls c), Some (cc_outcome c)).
 Definition seg_independent (c : conn_case) : bool :=
   let m1 := run1 (case_oracles c) (cc_cfg c) (case_env c) (frames_of (cf_max_len (cc_cfg c)) (cc_segs c)) in
-  obsu_eqb (obs_untimed m1) (obs_untimed_impl c).
+  let om := obs_untimed m1 in
+  (* as in corr_gen: when the keep-alive branch fails in the very instant a raced call is started,
+     tokio's unbiased select! may or may not have issued that last call *)
+  let mc := tr_calls m1 in
+  let last_at_end := match List.rev mc, tr_end m1 with
+                     | (tc, _) :: _, Some (te, OErr _) => tc =? te
+                     | _, _ => false end in
+  obsu_eqb om (obs_untimed_impl c)
+  || (last_at_end && obsu_eqb (fst (fst om), removelast (snd (fst om)), snd om) (obs_untimed_impl c)).
 
 (* the write side against Conn/SendQueue.v: what send_packet OFFERS to the stream at every
    poll_write is exactly the queue of the model (the rest of an interrupted frame followed by the
